@@ -109,27 +109,40 @@ structure Sem where
   src1W : Nat
   f : ScalarIn → ScalarOut
 
-/-- fetch operands, run the handler function, commit `dst` first and the special registers after it
-    (the order every handler uses) -/
-def execute (sem : Sem) (d : DInst) (st : MState) : Option MState := do
+/-- operand fetch: everything the handler can read, as `ReadOperand`/`SCC()`/… return it -/
+def fetch (src0W src1W : Nat) (d : DInst) (st : MState) : Option ScalarIn :=
   let needS0 := d.fmt == 0 || d.fmt == 2 || d.fmt == 3
   let needS1 := d.fmt == 0 || d.fmt == 3
-  let needD := d.fmt == 0 || d.fmt == 1 || d.fmt == 2
-  let s0 ← if needS0 then readOpnd st d.ssrc0 sem.src0W d.lit else some 0
-  let s1 ← if needS1 then readOpnd st d.ssrc1 sem.src1W d.lit else some 0
-  let dOld ← if d.fmt == 1 then readOpnd st d.sdst 32 d.lit else some 0
-  let i : ScalarIn := { src0 := BitVec.ofNat 64 s0, src1 := BitVec.ofNat 64 s1, dstOld := BitVec.ofNat 64 dOld,
-                        scc := BitVec.ofNat 8 st.scc, vcc := BitVec.ofNat 64 st.vcc, exec := BitVec.ofNat 64 st.exec,
-                        pc := BitVec.ofNat 64 st.pc, simm16 := BitVec.ofNat 64 d.simm16 }
-  let o := sem.f i
-  let st1 ← match o.dst with
-    | some v => if needD then writeOpnd st d.sdst sem.dstW (keep sem.dstW v).toNat else none
-    | none => some st
+  match (if needS0 then readOpnd st d.ssrc0 src0W d.lit else some 0),
+        (if needS1 then readOpnd st d.ssrc1 src1W d.lit else some 0),
+        (if d.fmt == 1 then readOpnd st d.sdst 32 d.lit else some 0) with
+  | some s0, some s1, some dOld =>
+    some { src0 := BitVec.ofNat 64 s0, src1 := BitVec.ofNat 64 s1, dstOld := BitVec.ofNat 64 dOld,
+           scc := BitVec.ofNat 8 st.scc, vcc := BitVec.ofNat 64 st.vcc, exec := BitVec.ofNat 64 st.exec,
+           pc := BitVec.ofNat 64 st.pc, simm16 := BitVec.ofNat 64 d.simm16 }
+  | _, _, _ => none
+
+/-- write-back of the special registers of an output record (after `dst`) -/
+def commitSpecial (st1 : MState) (o : ScalarOut) : MState :=
   let st2 := match o.exec with | some v => { st1 with exec := v.toNat } | none => st1
   let st3 := match o.vcc with | some v => { st2 with vcc := v.toNat } | none => st2
   let st4 := match o.scc with | some v => { st3 with scc := v.toNat } | none => st3
-  let st5 := match o.pc with | some v => { st4 with pc := v.toNat } | none => st4
-  some st5
+  match o.pc with | some v => { st4 with pc := v.toNat } | none => st4
+
+/-- write-back of an output record: `dst` first and the special registers after it (the order every
+    handler uses) -/
+def commit (dstW : Nat) (d : DInst) (st : MState) (o : ScalarOut) : Option MState :=
+  match o.dst with
+  | some v =>
+    if d.fmt == 0 || d.fmt == 1 || d.fmt == 2 then
+      (writeOpnd st d.sdst dstW (keep dstW v).toNat).map (commitSpecial · o)
+    else none
+  | none => some (commitSpecial st o)
+
+/-- fetch operands, run the handler function, commit its output -/
+def execute (sem : Sem) (d : DInst) (st : MState) : Option MState := do
+  let i ← fetch sem.src0W sem.src1W d st
+  commit sem.dstW d st (sem.f i)
 
 /-- `s=4:ffff,5:1` -/
 def parseS (t : String) : Option (List (Nat × Nat)) :=
